@@ -16,6 +16,7 @@
 import Lcapy.Proofs.Laplace
 import Lcapy.Proofs.LaplaceEntries
 import Lcapy.Proofs.LaplaceUndef
+import Lcapy.Proofs.LaplaceWindow
 import Lcapy.Proofs.LaplaceAnchor
 namespace Lcapy.C09
 open Lcapy.Laplace
@@ -167,6 +168,47 @@ theorem conv_entry (env : Env K) (hE : IsExp env.E) (c : K)
 theorem conv_exp_entry (env : Env K) (hE : IsExp env.E) (c a : K) (ha : env.s - a ≠ 0)
     (hx : NonPole env.xsig.post env.s) :
     specValue env (.convExpX c a) = (lcapyTerm env (.convExpX c a)).2 := conv_exp_entry' env hE c a ha hx
+
+/-! #### time-reversed steps (windows) and the `clip_step` rewriting -/
+
+/-- Window: a signal switched off at `T`, `g(t)·u(t−τ)·u(T−t)` (the model's base `u(t−τ) − u(t−T)` multiplied by any
+    product `g` of smooth factors), has the transform `L{g u(t−τ)} − L{g u(t−T)}`; the second term is the delayed
+    signal of `lt_delay`. -/
+theorem lt_window (E : K → K) (J c tau T s : K) (sm : List (Atom K)) :
+    L E (sm.foldl (applySmooth E J) [.ep c 0 0 tau, .ep (-c) 0 0 T]) s
+      = L E (sm.foldl (applySmooth E J) [.ep c 0 0 tau]) s + L E (sm.foldl (applySmooth E J) [.ep (-c) 0 0 T]) s :=
+  window_transform' E J c tau T s sm
+
+/-- … and that base really is the window: `c` on `τ ≤ t < T`, zero elsewhere -/
+theorem window_pointwise (E : K → K) (hE0 : E 0 = 1) (c tau T t : K) (hT : tau ≤ T) :
+    evalAt E [.ep c 0 0 tau, .ep (-c) 0 0 T] t = if tau ≤ t ∧ t < T then c else 0 :=
+  window_pointwise' E hE0 c tau T t hT
+
+/-- `L{c·u(a t + b)}`, `a < 0 < b` (on until `T = −b/a`): `c (1 − e^{−sT}) / s` — the defining integral over `[0, T]` -/
+theorem reversed_step_entry (env : Env K) (hE : IsExp env.E) (c a b : K) (ha : a < 0) (hb : 0 < b) (hs : env.s ≠ 0) :
+    specValue env (.prod c [.step a b]) = some (c * (1 - env.E (-(env.s * -(b / a)))) / env.s) := by
+  have h1 : ¬ (0 : K) ≤ a := not_le.mpr ha
+  have h2 : ¬ -(b / a) ≤ 0 := by
+    have : b / a < 0 := div_neg_of_pos_of_neg hb ha
+    intro h; linarith
+  simp [specValue, sem, semProd, expandAtoms, semSimple, List.filterMap, deltaSel, stepSel, offSel, List.filter, isSmooth,
+    h1, h2, Term.L, pw, hE.zero]
+  field_simp; ring
+
+/-- `clip_step` (guard GENERATED from the source text of `LaplaceTransformer.term`): when the guard holds, replacing
+    `Heaviside(a t + b)` by 1 does not change the signal on the unilateral axis.  Sound exactly because the guard
+    implies `a > 0 ∧ b ≥ 0`; a guard that only looks at `b` would also drop time-reversed steps (next example). -/
+theorem clip_step_sound (E : K → K) (J c a b : K) (atoms : List (Atom K)) (hg : Gen.clipGuard a b = true)
+    (hd : NoDeltaAtoms atoms) :
+    semSimple E J c (.step a b :: atoms) = semSimple E J c atoms := by
+  have h : 0 < a ∧ 0 < b := by simpa [Gen.clipGuard, not_le] using hg
+  exact drop_step_sound E J c a b atoms h.1 h.2.le hd
+
+-- dropping a time-reversed step is NOT sound: u(1 − t) is not 1 on t ≥ 0
+example : semSimple (K := ℚ) (fun _ => 1) 0 1 [.step (-1) 1] ≠ semSimple (K := ℚ) (fun _ => 1) 0 1 [] := by
+  norm_num [semSimple, List.filterMap, deltaSel, stepSel, offSel, List.filter, isSmooth]
+-- non-vacuity of the guard
+example : Gen.clipGuard (2 : ℚ) (1 / 2) = true := by norm_num [Gen.clipGuard]
 
 end B
 
